@@ -38,10 +38,22 @@ pub struct UMsg {
 /// the runtime must skip such a Send and carry on with the handler's remaining commands.
 const UNSERIALISABLE_FROM: u32 = 900_000;
 
+/// Identifies the datagrams of one scenario run. Workers of concurrently running scenarios reuse
+/// each other's ports now and then (a probed port is released before the runtime binds it, pids
+/// and hence port blocks wrap): every datagram carries the run id, and one with another id does
+/// not deserialise here, which the runtime ignores like any other garbage.
+static RUN: OnceLock<u64> = OnceLock::new();
+
 fn ser(m: &UMsg) -> Result<Vec<u8>, String> {
     if m.tag % 1_000_000 >= UNSERIALISABLE_FROM {
         return Err("unserialisable message".into());
     }
+    let mut out = format!("{}/", RUN.get().copied().unwrap_or(0)).into_bytes();
+    out.extend(ser_body(m)?);
+    Ok(out)
+}
+
+fn ser_body(m: &UMsg) -> Result<Vec<u8>, String> {
     let cmds: Vec<String> = m
         .cmds
         .iter()
@@ -57,6 +69,13 @@ fn ser(m: &UMsg) -> Result<Vec<u8>, String> {
 
 fn de(bytes: &[u8]) -> Result<UMsg, String> {
     let text = std::str::from_utf8(bytes).map_err(|e| e.to_string())?;
+    let (run, text) = text.split_once('/').ok_or("no run id")?;
+    let run: u64 = run.parse().map_err(|_| "bad run id")?;
+    if let Some(mine) = RUN.get() {
+        if run != *mine {
+            return Err("datagram of another scenario run".into());
+        }
+    }
     let (tag, rest) = text.split_once(':').ok_or("no tag")?;
     let tag: u32 = tag.parse().map_err(|_| "bad tag")?;
     let mut cmds = Vec::new();
@@ -206,6 +225,9 @@ pub fn udp_worker(args: &[String]) -> i32 {
         driver_socks.push(s);
     }
     let driver_ports: Vec<u16> = driver_socks.iter().map(|s| s.local_addr().unwrap().port()).collect();
+    let nanos = std::time::SystemTime::now().duration_since(std::time::UNIX_EPOCH).map(|d| d.as_nanos() as u64).unwrap_or(0);
+    let run = crate::rng::mix(&[seed, std::process::id() as u64, nanos]) >> 1;
+    let _ = RUN.set(run);
     let salt = std::process::id() % 4_000 + 1;
     let mut next_tag = 100u32;
     let mut tag = || {
@@ -258,7 +280,7 @@ pub fn udp_worker(args: &[String]) -> i32 {
                 // garbage / undeserialisable / oversized
                 let bytes: Vec<u8> = match rng.below(3) {
                     0 => b"\xff\xfe not utf8".to_vec(),
-                    1 => b"12:Zzz".to_vec(),
+                    1 => format!("{}/12:Zzz", run).into_bytes(), // right run id, malformed body
                     _ => vec![b'9'; 40_000],
                 };
                 log(json!({"t": now_us(), "who": "driver", "ev": "send-garbage", "from_port": driver_ports[sock_i], "to_actor": to, "len": bytes.len()}));
@@ -325,7 +347,7 @@ pub fn udp_worker(args: &[String]) -> i32 {
         drain(&driver_socks, &driver_ports);
     }
     let events = LOG.get().unwrap().lock().unwrap().clone();
-    println!("{}", json!({"actor_ports": ports, "driver_ports": driver_ports, "salt": salt, "events": events}));
+    println!("{}", json!({"actor_ports": ports, "driver_ports": driver_ports, "salt": salt, "run": run, "events": events}));
     0
 }
 
@@ -466,6 +488,10 @@ pub fn check_log(v: &Value) -> Result<BTreeMap<&'static str, u64>, (String, Valu
     for e in &events {
         if e["who"] == "driver" && e["ev"] == "recv" {
             let payload = e["payload"].as_str().unwrap_or("");
+            if payload.split_once('/').and_then(|(r, _)| r.parse::<u64>().ok()).map(|r| Some(r) != v["run"].as_u64()).unwrap_or(false) {
+                *stats.entry("foreign_datagrams_ignored").or_default() += 1;
+                continue;
+            }
             let Ok(m) = de(payload.as_bytes()) else {
                 if !actor_ports.contains(&e["from_port"].as_u64().unwrap_or(0)) {
                     *stats.entry("foreign_datagrams_ignored").or_default() += 1;
